@@ -12,7 +12,8 @@ from harness.xbuild import uS
 from harness.props import c09
 
 ID = "C17"
-REQUIRED_THEOREMS = ["types_unique", "params_unique", "containers_unique", "duplicate_type_rejected",
+REQUIRED_THEOREMS = ["loaded_consistent", "updateCaches_covers", "caches_consistent", "loadContainer_empty",
+                     "loadContainerSet_parts", "types_unique", "params_unique", "containers_unique", "duplicate_type_rejected",
                      "duplicate_parameter_rejected", "unknown_type_ref_rejected", "parameter_type_resolves",
                      "popFold_spec", "inheritors_exact", "basedOn_nodup",
                      "dangling_type_ref_is_load_failure", "dangling_base_is_load_failure",
